@@ -38,7 +38,7 @@ def cases(ctx):
     for nm in names:
         ctx.count('single-op')
         yield from script_cases(ctx, [nm], 'op')
-    lens = list(range(0, ctx.n(601))) + [65535, 65536, 65537, 70000]
+    lens = sorted(set(list(range(0, ctx.n(601))) + [65535, 65536, 65537, 70000] + G.source_literals()))
     for ln in lens:
         ctx.count('push-len')
         yield from script_cases(ctx, [G.rbytes(rng, ln).hex()], 'push')
